@@ -89,10 +89,18 @@ fn judge_curve_unit(case: &Case, u: f64, l: &mut Local) {
     }
     // whole-set variant with and without an arc-length interval
     let big_l = c.length();
-    for iv in [None, Some(Interval::new(0.25 * big_l, 0.75 * big_l)), Some(Interval::new(0.0, 0.0))] {
+    // (intervals that end exactly on stations which measured points project to: the whole curve, from the first
+    // interior vertex to the second; membership is decided here by plain comparisons with both ends included)
+    let lens = c.lengths().clone();
+    let mut ivs = vec![None, Some(Interval::new(0.25 * big_l, 0.75 * big_l)), Some(Interval::new(0.0, 0.0)), Some(Interval::new(0.0, big_l))];
+    if lens.len() >= 3 {
+        ivs.push(Some(Interval::new(lens[1], lens[lens.len() - 1])));
+        ivs.push(Some(Interval::new(0.0, lens[1])));
+    }
+    for iv in ivs {
         l.eval();
         let set = line_surface_deviations(&c, &queries, iv);
-        let keep: Vec<&Point2> = queries.iter().filter(|q| iv.map(|i| i.contains(c.at_closest_to_point(q).length_along())).unwrap_or(true)).collect();
+        let keep: Vec<&Point2> = queries.iter().filter(|q| iv.map(|i| { let x = c.at_closest_to_point(q).length_along(); x >= i.min && x <= i.max }).unwrap_or(true)).collect();
         let mut ok = set.len() == keep.len();
         if ok {
             for (d, q) in set.iter().zip(keep.iter()) {
